@@ -84,13 +84,22 @@ namespace
             runtime.__logmsg(err::ReturningConfigNull(runtime.context_active().current_frame().diag_info_from_position()));
             return config();
         }
-        if (index >= static_cast<int>(nav->size()) || index < 0)
+        // the entries of the class in declaration order (`delete` markers are none)
+        auto entry = nav.begin();
+        size_t position = 0;
+        while (entry != nav.end() && static_cast<int>(position) < index)
         {
-            runtime.__logmsg(err::IndexOutOfRangeWeak(runtime.context_active().current_frame().diag_info_from_position(), nav->size(), index));
+            ++entry;
+            ++position;
+        }
+        if (index < 0 || entry == nav.end())
+        {
+            auto size = static_cast<size_t>(std::distance(nav.begin(), nav.end()));
+            runtime.__logmsg(err::IndexOutOfRangeWeak(runtime.context_active().current_frame().diag_info_from_position(), size, index));
             runtime.__logmsg(err::ReturningConfigNull(runtime.context_active().current_frame().diag_info_from_position()));
             return config();
         }
-        return nav.at(index);
+        return *entry;
     }
     value count_config(runtime& runtime, value::cref right)
     {
@@ -102,7 +111,8 @@ namespace
             runtime.__logmsg(err::ReturningScalarZero(runtime.context_active().current_frame().diag_info_from_position()));
             return 0;
         }
-        return nav->size();
+        // the entries of the class (`delete` markers are none)
+        return static_cast<size_t>(std::distance(nav.begin(), nav.end()));
     }
     value confighierarchy_config(runtime& runtime, value::cref right)
     {
